@@ -1,9 +1,11 @@
 #!/bin/sh
 # Record which contract clauses are discharged on the pinned (unchanged) tree. Run by the maintainer of
-# /verif after changing contracts; a check run never writes the ledger.
+# /verif after changing contracts; a check run never writes the ledger.  The old ledger is kept if any check fails.
 cd "$(dirname "$0")/.." || exit 1
+[ -f ledger.json ] && cp ledger.json ledger.json.bak
 rm -f ledger.json
 for p in $(python3-vt -c "import runpy;print(' '.join(sorted(runpy.run_path('properties.py')['PROPERTIES'])))"); do
-  PYVC_WRITE_LEDGER=1 ./check "$p" --tier quick || exit 1
+  PYVC_WRITE_LEDGER=1 ./check "$p" --tier quick || { echo "check $p did not pass: ledger NOT updated"; [ -f ledger.json.bak ] && mv ledger.json.bak ledger.json; exit 1; }
 done
+rm -f ledger.json.bak
 python3-vt -c "import json;print(len(json.load(open('ledger.json'))['clauses']),'clauses in ledger')"
